@@ -10,8 +10,8 @@ import (
 )
 
 // VerifLemma_C02B_MemWalk: the in-memory bucket keeps its objects in a Go map; Walk must nevertheless visit them
-// in strictly ascending path order, each exactly once, for every iteration order of that map (explored by the
-// engine) - and storage.AllPaths over it gives the same list.
+// each exactly once and in the same order for every iteration order of that map (explored by the engine; two walks
+// are compared) - and storage.AllPaths over it is sorted.
 func VerifLemma_C02B_MemWalk() {
 	n := verifNondetChoice(verifParam("OBJS") + 1)
 	m := make(map[string]*internal.ImmutableObject, n)
@@ -37,10 +37,20 @@ func VerifLemma_C02B_MemWalk() {
 	verifCover("walked")
 	verifAssert(err == nil, "walk succeeds")
 	verifAssert(len(visited) == n, "every object exactly once")
-	for i := 0; i < len(visited); i++ {
-		if i > 0 {
-			verifAssert(visited[i-1] < visited[i], "strictly ascending path order for every map order")
+	// Walk's order is not documented as sorted; what C02 needs is that it does not depend on the map's iteration
+	// order: a second walk (an independent map order in the engine) visits the same sequence.
+	var again []string
+	err = b.Walk(context.Background(), "", func(o storage.ObjectInfo) error {
+		again = append(again, o.Path())
+		return nil
+	})
+	verifAssert(err == nil && len(again) == len(visited), "second walk succeeds")
+	if len(again) == len(visited) {
+		for i := range visited {
+			verifAssert(again[i] == visited[i], "same visiting order for every map iteration order")
 		}
+	}
+	for i := 0; i < len(visited); i++ {
 		found := false
 		for _, p := range paths {
 			if p == visited[i] {
@@ -51,9 +61,7 @@ func VerifLemma_C02B_MemWalk() {
 	}
 	all, err := storage.AllPaths(context.Background(), b, "")
 	verifAssert(err == nil && len(all) == len(visited), "AllPaths agrees")
-	if len(all) == len(visited) {
-		for i := range all {
-			verifAssert(all[i] == visited[i], "AllPaths gives the walk order")
-		}
+	for i := 1; i < len(all); i++ {
+		verifAssert(all[i-1] < all[i], "AllPaths is sorted (documented) for every map order")
 	}
 }
